@@ -39,6 +39,10 @@ impl<'a> Multiboot2Header<'a> {
     /// Multiboot2 header pointer.
     pub unsafe fn load(ptr: *const Multiboot2BasicHeader) -> Result<Self, LoadError> {
         let ptr = NonNull::new(ptr.cast_mut()).ok_or(LoadError::Memory(MemoryError::Null))?;
+        // A length that does not even cover the header can never be valid.
+        if (unsafe { ptr.as_ref() }.length() as usize) < size_of::<Multiboot2BasicHeader>() {
+            return Err(LoadError::Memory(MemoryError::ShorterThanHeader));
+        }
         let inner = DynSizedStructure::ref_from_ptr(ptr).map_err(LoadError::Memory)?;
         let this = Self(inner);
 
@@ -315,6 +319,7 @@ impl Multiboot2BasicHeader {
 
 impl Header for Multiboot2BasicHeader {
     fn payload_len(&self) -> usize {
+        assert!(self.length as usize >= size_of::<Self>());
         self.length as usize - size_of::<Self>()
     }
 
